@@ -20,6 +20,7 @@ type vmBox struct {
 	parse     otto.Value
 	mkToJSON  otto.Value
 	define    otto.Value
+	constFn   otto.Value
 	objectFn  otto.Value
 	fn        otto.Value
 	repl      map[int]otto.Value
@@ -69,6 +70,7 @@ func newBox(env int) *vmBox {
 	for i, s := range reviverSrc {
 		b.reviver[i] = must(s)
 	}
+	b.constFn = must(`(function(p){return function(){return p}})`)
 	b.define = must(`(function(o,k,v){Object.defineProperty(o,k,{value:v,writable:true,enumerable:true,configurable:true})})`)
 	if envSrc[env] != "" {
 		must(envSrc[env])
@@ -218,6 +220,32 @@ func (r *reader) value() otto.Value {
 		case 'S':
 			return r.box(strVal(r.units()))
 		}
+	case 'W':
+		// a Number / String object with scripted valueOf and toString
+		k := r.s[r.i]
+		r.i++
+		var w otto.Value
+		if k == 'D' {
+			w = r.box(mk(r.f64()))
+		} else {
+			w = r.box(strVal(r.units()))
+		}
+		for _, name := range []string{"valueOf", "toString"} {
+			m := r.s[r.i]
+			r.i++
+			switch m {
+			case 'i':
+			case 'n':
+				r.def(w.Object(), name, otto.NullValue())
+			case 'r':
+				fn, err := r.b.constFn.Call(otto.UndefinedValue(), r.value())
+				if err != nil {
+					panic(err)
+				}
+				r.def(w.Object(), name, fn)
+			}
+		}
+		return w
 	case 'J':
 		inner := r.value()
 		v, err := r.b.mkToJSON.Call(otto.UndefinedValue(), inner)
